@@ -508,7 +508,7 @@ def run_session(cfg: Dict[str, Any]) -> Dict[str, Any]:
                         record_blocks=cfg.get('record_blocks', True))
     py_state = _random.getstate()
     tables: List[_Table] = []
-    with baton.World(sched) as world:
+    with baton.World(sched, debug_logging=bool(cfg.get('debug_logging'))) as world:
         # ---- capture the replicas the clients build (from outside) ----------
         orig_obs = ppmod.ObservedPlayingPhase
         orig_bp = cmod.Client.bidding_phase
